@@ -876,6 +876,21 @@ def rule_renorm_at_centre(ctx):
             break
     if len(branches) < 2:
         raise AnalysisError("TEBD.sweep: direction branches not found")
+    # a periodic state has no orthogonality centre at all: when the class supports cyclic states (sweep reads self.cyclic) the factor is
+    # the norm of the *whole* state there — `<state>.norm()` with the network itself as receiver, under a test on self.cyclic
+    handles_cyclic = any(isinstance(y, ast.Attribute) and y.attr == "cyclic" for y in ast.walk(sw.node))
+    if handles_cyclic:
+        whole = False
+        for st in ast.walk(sw.node):
+            if isinstance(st, ast.If) and any(isinstance(y, ast.Attribute) and y.attr == "cyclic" for y in ast.walk(st.test)):
+                for x in ast.walk(st):
+                    if isinstance(x, ast.Call) and isinstance(x.func, ast.Attribute) and x.func.attr == "norm" and isinstance(x.func.value, ast.Attribute) and x.func.value.attr == "_pt":
+                        whole = True
+        if whole:
+            r.ok("TEBD.sweep[cyclic]", sample={"periodic states": "renormalised by the norm of the whole state"})
+        else:
+            r.bad(Finding("renorm-at-centre", "TEBD.sweep", "periodic states are renormalised by the norm of one site tensor as well: a cyclic MPS has no orthogonality centre, so that is not "
+                                                             "the norm of the state and imaginary-time evolution returns an unnormalised state", where=where, operand="cyclic"))
     for label, body in branches:
         moves = []
         sets = []
